@@ -1,12 +1,14 @@
-(* Property C03 (an undecryptable or damaged flow never aborts the run or disturbs other flows) -- statements only, TLS over TCP.
-   Proved: isolation (what happens to one flow's packets cannot change another flow's sessions), totality of the reading phase,
-   and, record by record, that a session without usable keys or a record that does not decrypt contributes nothing.  Truncation
-   of the capture gives a prefix (C08_tls).  NOT proved: that no input whatsoever makes the decrypt phase raise (run-level
-   totality), the prefix claim for a packet lost in the middle, and everything on the QUIC side: these are decided by the fault
-   enumeration of the check, with byte-exact correspondence of the model including the crash outcomes (DESIGN.md, C03). *)
+(* Property C03 (an undecryptable or damaged flow never aborts the run or disturbs other flows) -- statements only.
+   Proved: isolation (what happens to one flow's packets cannot change another flow's sessions; TLS: C03_isolation, QUIC:
+   C03_quic_isolation), totality of the reading phase for TCP, UDP/QUIC and everything else (C03_run_reading_total: no packet, however
+   damaged or crafted, makes it fail), and, record by record, that a TLS session without usable keys or a record that does not
+   decrypt contributes nothing.  Truncation of the capture gives a prefix (C08_tls, C08_quic).  NOT proved: that no input
+   whatsoever makes the TLS decrypt phase after the reading phase raise, and the prefix claim for a packet lost in the middle:
+   these are decided by the fault enumeration of the check, with byte-exact correspondence of the model including the crash
+   outcomes (DESIGN.md, C03). *)
 From Coq Require Import ZArith List Bool.
 From Coq Require String.
-Require Import PyLib SuiteTypes SuiteParser Crypto KeySchedule Packet Reassembly Decryptor TlsSession Main C04P C03P.
+Require Import PyLib SuiteTypes SuiteParser Crypto KeySchedule Packet Reassembly Decryptor TlsSession Main C04P C03P QuicDemuxP QuicTotalP.
 Import ListNotations.
 Open Scope Z_scope.
 
@@ -47,3 +49,27 @@ Theorem C03_other_records_total : forall C tbl parts keylog s r d, r_type r <> 0
   exists s' em, handle_tls_record C tbl parts keylog s r d = Ok (s', em) /\ (r_type r <> 0x17 -> Forall (fun e => te_meta e = true) em).
 Proof. exact other_records_total. Qed.
 Print Assumptions C03_other_records_total.
+
+(* ---------------- QUIC ---------------- *)
+(* whatever a UDP datagram contains, a QUIC session handles it without raising: packet extraction, header protection, decryptor
+   selection, packet-number expansion, AEAD and frame parsing all fail into "packet skipped", and the loop over a coalesced datagram
+   ends because every round consumes at least one byte (no OutOfFuel).  HkdfInitialTotal: the crypto library's HKDF-Expand does not
+   refuse outputs of 12, 16 or 32 bytes under SHA-256 (the Initial keys). *)
+Theorem C03_quic_datagram_total : forall C kl ftable, HkdfInitialTotal C ->
+  forall s p dcid ver, exists s', QuicSession.quic_handle_packet C kl ftable s p dcid ver = Ok s'.
+Proof. exact quic_handle_total. Qed.
+Print Assumptions C03_quic_datagram_total.
+
+(* the reading phase of the whole run -- TCP segments, UDP datagrams, other packets, key-log blocks, in any order -- never fails
+   without -c, from any state *)
+Theorem C03_run_reading_total : forall C o ftable items, HkdfInitialTotal C -> opt_checksum o = false ->
+  forall g, exists g', fold_left (read_item C o ftable) items (Ok g) = Ok g'.
+Proof. exact run_reading_total. Qed.
+Print Assumptions C03_run_reading_total.
+
+(* a datagram of another flow -- damaged, foreign, crafted -- leaves the QUIC sessions of q's flow as they are (as long as the
+   connection-ID pass does not hand it to them: `respects`, see C04_quic_sessions_as_if_alone) *)
+Theorem C03_quic_isolation : forall C o ftable kl q p ss ss', respects q ss p -> same_flowb q p = false ->
+  handle_quic_packet C o ftable kl ss p = Ok ss' -> qproj q ss' = qproj q ss.
+Proof. exact quic_other_flow. Qed.
+Print Assumptions C03_quic_isolation.
